@@ -1,13 +1,65 @@
 """C08 - Rendering is total and allocation-free on display-scale inputs  (metadata + implementation-side search)"""
 from common import *
 
-CLAIMED = False  # until theorem parts are merged
+CLAIMED = True
 LEVEL = 'proof'
-LEVEL_TEXT = 'TODO'
-LEVEL_NOTE = 'TODO'
-RULE = ('search p_total: every drawable family x boundary-biased display-scale values (coordinates and sizes from '
-        '{0,1,2,63..65,255..257,240,320,480,1023,1024} and negatives, stroke widths {0,1,2,3,63..65,127,128}, line heights up to 1024 px / 400 %), '
-        'in a build with overflow checks and debug assertions, counting global allocator, step budget on every iterator.')
+LEVEL_TEXT = (
+    'Proof: coq/Model/Overflow.v gives, for each covered Rust function f, an executable boolean f_ok that conjoins, in source order, '
+    '"this intermediate fits its Rust type (i32/u32/i64/u64/usize), this divisor is not zero, this debug_assert holds" for every arithmetic '
+    'site of f and of the callees it reaches. coq/Properties/C08.v proves (lia/nia, no axioms) C08_<f>_total: f_ok = true for ALL '
+    'display-scale inputs (|coordinate| <= 1024, extents <= 1024, stroke widths and offsets <= 128, edge lines of thick segments within '
+    '+-1280, mono fonts up to 64 px cells and 65536 characters, line heights <= 1024 px / 400 %) for Point/Size/Rectangle operations, '
+    'PrimitiveStyle stroke/fill areas, Circle/Ellipse contains + center_2x + thresholds + offset, EllipseQuadrant, CornerRadii::confine, '
+    'Line delta/perpendicular/midpoint, BresenhamParameters, the complete Line::points loop (exactly major_length <= 2049 steps), '
+    'increase/decrease_error, next_all/previous_all and ParallelsIterator::next per step with inductive invariants, '
+    'ParallelsIterator::new / ThickPoints::new (i64 threshold), LinearEquation, IntersectionParams (i64 numerators, round_div), the miter '
+    'test, Triangle area_doubled / contains (whole path), mono text layout (baseline offset, measure_string, draw_string, line advance), '
+    'LineHeight, ImageRaw bytes_per_row / data_width / draw / draw_sub_image / pixel, ContiguousPixels (every step safe; stops after '
+    'exactly w*h+1 calls) and Cropped. Tie 1 (translator): translate/gen_arith.py regenerates from the tree under test the '
+    'identifier-free skeleton of every arithmetic / cast / index / unwrap site of every non-test function of 22 source files; '
+    'C08_sites_covered (vm_compute reflection) requires each to equal the skeleton the predicate was written against, be literal-only, '
+    'or be in the explicit unmodelled list, so a new or changed unchecked operation in a covered function breaks a proof obligation. '
+    'Tie 2 (correspondence): both oracles evaluate f_ok versus "did the real function panic" (overflow checks + debug assertions on) '
+    'on inputs straddling every boundary (2^15, 2^16, 2^31, 2^32, 2^63 ...), far outside display scale. '
+    'Search p_total (implementation only): every drawable family, null font, adapter stacks, default and fixed_point builds: no panic, '
+    '0 heap allocations, step budget 16 x bounding-box area.')
+LEVEL_NOTE = (
+    'NOT modelled, hence not proved: heap allocation of the compiled crate (supporting evidence only: the counting global allocator of '
+    'the harness reads 0 around every library call of p_total; the translator asserts #![no_std] in both lib.rs and finds no alloc::/std:: '
+    'path outside test code) and the internals of the dependency crates (az, micromath, fixed, float-cmp, byteorder). '
+    'The f_ok predicates are hand-written; they are tied to the code by the skeleton check (structure of the arithmetic, not its operands) '
+    'and by differential testing, not proved equal to the Rust code. Totality of whole draw() calls is assembled from per-function and '
+    'per-step theorems only for Line::points, ContiguousPixels and text lines; for thick lines, joins (Line::extents), scanline fills, arcs '
+    'and sectors the composition is covered by the p_total search, not by a theorem (see PARTIAL). usize is a parameter (>= 32 bit) in the '
+    'theorems and 64 bit in the correspondence. debug_assert!s are treated as panic sites (the harness profile enables them).')
+RULE = ('correspondence ok_*: f_ok (model) vs panic / no panic (implementation, overflow checks + debug assertions) for 17 suites on '
+        'boundary-straddling inputs (i32/u32 edges, 2^15..2^16 for products, 2^63 for the thick-line threshold, custom mono fonts, '
+        'verif_hooks line equations); distinct = distinct case lines, every result is OK or PANIC (both verdicts occur in every suite). '
+        'search p_total: every drawable family x boundary-biased display-scale values (coordinates and sizes from '
+        '{0,1,2,63..65,255..257,240,320,480,1023,1024} and negatives, corner-biased vertices, stroke widths {0,1,2,3,63..65,127,128}, '
+        'line heights up to 1024 px / 400 %, display-scale images, null font x 4 baselines x 3 alignments), every query and draw, 9 adapter '
+        'stacks (clipped / cropped / translated / colour-converted with degenerate areas) and out-of-range rejections, in a build with '
+        'overflow checks and debug assertions, counting global allocator, explicit step budget; arc/sector cases and every 4th other case '
+        'again on the fixed_point build (p_fixed_point lines).')
+ASSUMPTIONS = ['display scale as stated in each theorem (ds_* / edge_* predicates of coq/Model/Overflow.v); outside it f_ok may be false '
+               '(and the code then panics with overflow checks: the correspondence suites exercise exactly that)',
+               'C08_miter_total assumes the join intersection point within +-2^30 (not derived from the edge lines)']
+TRUSTED = ['translate/gen_arith.py (tokeniser-level skeletons; operands are not compared, only the shape of the arithmetic)',
+           'the mapping function -> predicate in translate/record_skeletons.py / the `recorded` table is maintained by hand',
+           'modelled, not verified: az::SaturatingAs, i32 `/` as Z.quot, u32 and usize `/` as Z.div, `as` between equal-width integers as wrap']
+PARTIAL = [
+    'unmodelled functions of the covered files (explicit list unmodelled_fns in coq/Model/Overflow.v): Line::extents, '
+    'OriginLinearEquation::with_angle (float / fixed trigonometry), Triangle::is_collapsed, Triangle::sorted_clockwise and the From/TryFrom '
+    'conversions (constant indices into fixed arrays), Index for Point/Size, Triangle::from_slice, ImageRaw::new_const (documented panics)',
+    'C08_miter_total: full statement "the miter point computed from display-scale edge lines lies within +-2^30" is OPEN (assumed)',
+    'thick lines and joins: per-step theorems with inductive invariants (C08_next_all_total, C08_previous_all_total, '
+    'C08_increase_error_total, C08_decrease_error_total, C08_parallels_next_total) but no theorem for the whole ParallelsIterator / '
+    'ThickPoints / LineJoin::from_points loop (Line::extents unmodelled); covered by p_total',
+    'no ok_* correspondence (skeleton tie + p_total only) for: circle/ellipse offset, EllipseQuadrant, increase/decrease_error, next_all / '
+    'previous_all, ParallelsIterator::next, miter, text lines, ImageRaw draw/pixel, ContiguousPixels, Cropped (image and raw parts: C08_image, C08_raw)',
+    'files outside translate/gen_arith.py FILES (arc, sector, polyline, scanline fills, styled iterators, mono font draw target, framebuffer) '
+    'are covered by p_total only',
+]
 
 B = [0, 1, 2, 63, 64, 65, 255, 256, 257, 240, 320, 480, 1023, 1024]
 W = [0, 1, 2, 3, 63, 64, 65, 127, 128]
@@ -161,6 +213,12 @@ def cases(tier, rng):
         yield J('ok_tri_contains', *tv, *q)
         if m <= 1000:
             yield J('ok_tri_contains', *tv, rng.randrange(-m, m + 1), rng.randrange(-m, m + 1))
+        # line equations / intersections (verif_hooks): i32 dot products and determinants need coordinates near 2^15
+        m = rng.choice([10, 1000, 1280, 16384, 23170, 23171, 32767, 32768, 46340, 46341, 65536, 2 ** 20, 2 ** 30])
+        lv = [rng.choice([m, -m, m - 1, 1 - m, rng.randrange(-m, m + 1), 0, 1]) for _ in range(8)]
+        yield J('ok_linear_equation', *lv[:6])
+        yield J('ok_line_intersection', *lv)
+        yield J('ok_line_intersection', lv[0], lv[1], lv[2], lv[3], lv[2], lv[3], lv[6], lv[7])
         # mono font layout with a custom font: cell / spacing near 2^16 and 2^31, long lines, positions at the i32 edge
         fcw, fsp = rng.choice([0, 6, 10, 65535, 65536, 2 ** 31 - 1, 2 ** 31, 2 ** 32 - 1, eu(rng)]), rng.choice([0, 0, 1, 2, 65536, 2 ** 32 - 1, eu(rng)])
         fch, fbl = rng.choice([0, 1, 2, 20, 2 ** 31 - 1, 2 ** 31, 2 ** 32 - 1, eu(rng)]), rng.choice([0, 15, 2 ** 31, eu(rng)])
